@@ -680,6 +680,41 @@ class Program:
             return self._eval_call(expr, mod, cls, env, _depth)
         if isinstance(expr, ast.Lambda):
             raise Unknown("lambda")
+        if isinstance(expr, (ast.DictComp, ast.ListComp, ast.SetComp)) and len(expr.generators) == 1 and not expr.generators[0].is_async:
+            # a comprehension over a foldable collection (at most 64 items): evaluated item by item
+            gen = expr.generators[0]
+            items = ev(gen.iter)
+            if isinstance(items, dict):
+                items = list(items)
+            if not isinstance(items, (list, tuple)) or len(items) > 64:
+                raise Unknown("comprehension source")
+
+            class _Layer:
+                def __init__(s, top, base):
+                    s.top, s.base = top, base
+
+                def __contains__(s, k):
+                    return k in s.top or (s.base is not None and k in s.base)
+
+                def __getitem__(s, k):
+                    return s.top[k] if k in s.top else s.base[k]
+            out = {} if isinstance(expr, ast.DictComp) else []
+            for it in items:
+                if isinstance(gen.target, ast.Name):
+                    top = {gen.target.id: it}
+                elif isinstance(gen.target, ast.Tuple) and all(isinstance(t, ast.Name) for t in gen.target.elts) and isinstance(it, (tuple, list)) \
+                        and len(it) == len(gen.target.elts):
+                    top = {t.id: v for t, v in zip(gen.target.elts, it)}
+                else:
+                    raise Unknown("comprehension target")
+                env2 = _Layer(top, env)
+                if not all(unwrap(self.const_eval(c, mod, cls, env2, _depth + 1)) for c in gen.ifs):
+                    continue
+                if isinstance(expr, ast.DictComp):
+                    out[self.const_eval(expr.key, mod, cls, env2, _depth + 1)] = self.const_eval(expr.value, mod, cls, env2, _depth + 1)
+                else:
+                    out.append(self.const_eval(expr.elt, mod, cls, env2, _depth + 1))
+            return set(out) if isinstance(expr, ast.SetComp) else out
         raise Unknown(type(expr).__name__)
 
     def attr_of(self, base, attr, _depth=0):
